@@ -606,7 +606,9 @@ impl<'a> GeneratorState<'a> {
                             self.asm(BNE, &ExprType::Label(ifend_label.clone()), 0, false)?;
                             self.asm(INC, expr_type, pos, true)?;
                             self.label(&ifend_label)?;
-                            self.flags = FlagsState::Absolute(variable.clone(), *eight_bits, *offset);
+                            // Z describes the 16-bit value here, N does not (it is the low byte's
+                            // when the high byte was not incremented)
+                            self.flags = FlagsState::Unknown;
                             self.carry_flag_ok = false;
                         } else {
 // Decrement :
@@ -672,7 +674,9 @@ impl<'a> GeneratorState<'a> {
                             self.asm(BNE, &ExprType::Label(ifend_label.clone()), 0, false)?;
                             self.asm(INC, expr_type, pos, true)?;
                             self.label(&ifend_label)?;
-                            self.flags = FlagsState::AbsoluteX(variable.clone());
+                            // Z describes the 16-bit value here, N does not (it is the low byte's
+                            // when the high byte was not incremented)
+                            self.flags = FlagsState::Unknown;
                             self.carry_flag_ok = false;
                         } else {
 // Decrement :
